@@ -69,14 +69,16 @@ Definition check_node_old (c : node_case) : bool := beq (node_model_old c) (snd 
     previous outputs, segwit flags, output paths).
     observed: (0 reply / 2 error / 3 panic, the indices the approver was asked about, control after) *)
 Definition handler_obs : Type := N * option (list N) * vcobs.
+(** the last flag of the request: one of its wallet inputs is refused by the signing loop of
+    unchecked_sign_onchain_tx (a key that does not match the script), which runs after the approval *)
 Definition handler_case : Type :=
-  (list CommitmentPolicy.rule * opolicy) * (vcobs * N * nodecase * bool) * handler_obs.
+  (list CommitmentPolicy.rule * opolicy) * (vcobs * N * nodecase * bool * bool) * handler_obs.
 Definition handler_model (c : handler_case) : handler_obs :=
-  let '((rules, pol), (c0, now, nc, answer), _) := c in
+  let '((rules, pol), (c0, now, nc, answer, sign_refuses), _) := c in
   let warn := owarn_of rules in
   let '(r, _) := check_onchain warn pol (vc_of c0) now nc in
   let '(h, c1) := handle_proposed warn pol (fun _ => answer) (vc_of c0) now nc in
-  (match h with HApproved => 0 | HPanic => 3 | _ => 2 end,
+  (match h with HApproved => if sign_refuses then 2 else 0 | HPanic => 3 | _ => 2 end,
    match r with CUnknown u => Some u | _ => None end, obs_of c1).
 Definition check_handler (c : handler_case) : bool := beq (handler_model c) (snd c).
 
